@@ -2,7 +2,7 @@
    Only ExtrOcamlBasic's Extract Inductive directives (bool, option, unit,
    list, prod, sumbool, sumor); nat, N, positive stay inductive types;
    no Extract Constant. *)
-Require Import LV.Base LV.VV LV.Path LV.Prog LV.Objects LV.Exec LV.Atomic LV.Ops LV.Check.
+Require Import LV.Base LV.VV LV.Path LV.Prog LV.Objects LV.Exec LV.Atomic LV.Ops LV.Check LV.Ref LV.Num.
 Require Extraction.
 Require Import ExtrOcamlBasic.
 Extraction Language OCaml.
@@ -10,4 +10,5 @@ Extraction "../ocaml/loom_model.ml"
   check check_from iteration init_exec initial_path step
   branch_thread push_load branch_load branch_spurious backtrack
   explore_state critical skip_branch path_new
-  vv_join vv_le vv_lt vv_pcmp apply_rmw.
+  vv_join vv_le vv_lt vv_pcmp apply_rmw
+  ref_outcomes loom_run std_run op_ok in_range.
